@@ -140,13 +140,17 @@ _RE = re.compile(
 
 def tokenize(source: str, parent_token: Token) -> Iterator[Token]:
     """Tokenize a liquid expression."""
+    after_dot = False
+
     for match in _RE.finditer(source):
         kind = match.lastgroup
         assert kind is not None
 
         value = match.group()
 
-        if kind == TOKEN_WORD and value in _keywords:
+        if kind == TOKEN_WORD and value in _keywords and not after_dot:
+            # A word that follows a dot is a property name, `product.limit`,
+            # whatever it spells.
             kind = value
         elif kind == TOKEN_IDENTINDEX:
             value = match.group(GROUP_IDENTINDEX)
@@ -179,6 +183,8 @@ def tokenize(source: str, parent_token: Token) -> Iterator[Token]:
                     source=parent_token.source,
                 ),
             )
+
+        after_dot = kind == TOKEN_DOT
 
         yield Token(
             kind,
